@@ -1,6 +1,6 @@
 From Coq Require Import ZArith List Bool Lia.
 From Arsenal Require Import Util.
-From Arsenal Require VamDev VamBlockList Vam VamInv VamInvThm VamAcctThm VamMap VamMapThm VamDefrag VamDefragThm VamDefragAcct VamDefragMap.
+From Arsenal Require VamDev VamBlockList Vam VamInv VamInvThm VamAcctThm VamMap VamMapThm VamDefrag VamDefragThm VamDefragAcct VamDefragMap VamHvThm VamDefragHv.
 From Arsenal Require Import SyncMem SyncMemProofs.
 Import ListNotations.
 Open Scope Z_scope.
@@ -79,4 +79,21 @@ Theorem C08_allocator_defrag_calls_valid : forall c v run o f v' run' r calls dr
   replay (m_mems (v_m v)) calls (m_mems (v_m v')).
 Proof. intros c v run o f v' run' r calls dr Ha. exact (VamDefragMap.dstep_calls_valid c Ha v run o f v' run' r calls dr). Qed.
 Print Assumptions C08_allocator_defrag_calls_valid.
+(* never maps memory that is not host-visible: every vkMapMemory issued during any API operation (user Map /
+   read-write only of allocations that live in host-visible memory: op_map_ok) or defragmentation operation,
+   from any reachable state under any fault oracle, addresses an object whose memory type is HOST_VISIBLE (the
+   object is looked up in the device state in which the call is issued); persistently mapped allocations live
+   in host-visible memory. *)
+Theorem C08_allocator_maps_only_host_visible : forall c v o f v' r calls,
+  cfg_acct c -> reachA c v -> op_ok v o -> op_dom o -> VamHvThm.op_map_ok c v o ->
+  step c v o f = (v', r, calls) -> r <> RPanic -> r <> RStuck -> VamHvThm.maps_hv c (m_mems (v_m v)) calls.
+Proof. intros c v o f v' r calls Ha. exact (VamHvThm.maps_only_host_visible c Ha v o f v' r calls). Qed.
+Print Assumptions C08_allocator_maps_only_host_visible.
+
+Theorem C08_allocator_defrag_maps_host_visible : forall c v run o f v' run' r calls dr,
+  cfg_acct c -> VamDefragAcct.reachDA c v run -> VamDefragThm.dop_ok v run o ->
+  Vam.dstep c v run o f = (v', run', r, calls, dr) -> r <> RPanic -> r <> RStuck ->
+  VamHvThm.maps_hv c (m_mems (v_m v)) calls.
+Proof. intros c v run o f v' run' r calls dr Ha. exact (VamDefragHv.dstep_maps_host_visible c Ha v run o f v' run' r calls dr). Qed.
+Print Assumptions C08_allocator_defrag_maps_host_visible.
 End Allocator.
